@@ -562,7 +562,7 @@ package iterator
 //@   ensures protoAll(func() fp.Iterator[B] { return Scan(Of[A](), zero, f) }, []B{zero})
 //
 //@ lemma boundedReduceMinMax[T any](a, b, c T, m fp.Monoid[T], ord fp.Ord[T])
-//@   prop C12 C11
+//@   prop C12 C11 C10
 //@   option unroll
 //@   ensures Eq(Reduce(Of(a, b), m), m.Combine(m.Combine(m.Empty(), a), b))
 //@   tag reduce2
